@@ -253,6 +253,20 @@ func childMain(args []string) {
 	w := bufio.NewWriterSize(os.Stdout, 1<<20)
 	defer w.Flush()
 	enc := json.NewEncoder(w)
+	// probes: programs that expose the Go-level attribute listing and the spelling hints of a value of every
+	// built-in type WITHOUT calling dir() themselves; run before anything else and again after everything else
+	probes := []program{
+		{Src: "p_time = time.now()\np_dur = time.hour\np_str = \"s\"\np_bytes = b\"b\"\np_list = []\np_dict = {}\np_set = set()\np_struct = struct(zeta_field = 1, alpha_field = 2)\np_mod = (json, math, time)\np_has = [hasattr(x, \"year\") for x in (p_time, p_dur, p_list)]\n", Opts: 1},
+		{Src: "def f(t): return t.yeour\nf(time.now())\n", Opts: 1},
+		{Src: "def f(d): return d.minuts\nf(time.hour)\n", Opts: 1},
+		{Src: "def f(s): return s.uper_x\nf(struct(upper_a = 1, upper_b = 2))\n", Opts: 1},
+	}
+	var probeT []string
+	if *multi {
+		for _, p := range probes {
+			probeT = append(probeT, transcript(p))
+		}
+	}
 	seqT := map[int64]string{}
 	for i := *lo; i < *hi; i++ {
 		p := genProgram(*seed, i)
@@ -276,6 +290,12 @@ func childMain(args []string) {
 		// every program again AFTER all the others have run in this process (state that one
 		// execution leaves behind -- caches, lists sorted in place -- must not change another),
 		// and on a Thread that has executed something else before
+		for k, p := range probes {
+			if t2 := transcript(p); t2 != probeT[k] {
+				enc.Encode(map[string]any{"kind": "diverge", "where": "after-other-programs", "i": -1, "a": probeT[k], "b": t2, "program": p.Src})
+				break
+			}
+		}
 		for i := *hi - 1; i >= *lo; i-- {
 			p := genProgram(*seed, i)
 			if t2 := transcript(p); t2 != seqT[i] {
@@ -643,7 +663,7 @@ func runMain(args []string) {
 		if i >= 0 {
 			p = genProgram(*seed, i)
 		} else {
-			p = program{Src: "(the generated chain program of sharedStress; see harness/cmd/c03/main.go)", Tags: []string{"shared-program-chain"}}
+			p = program{Src: "(a fixed program of the harness -- probe / chain / shared frozen values; see harness/cmd/c03/main.go)", Tags: []string{"fixed"}}
 		}
 		key, x, y := firstDiff(a, b)
 		ndiv++
